@@ -149,9 +149,22 @@ func (c13) Generate(r *core.Rng, run int, tier string) *core.History {
 		defs = append(defs, d)
 	}
 	h.Events = append(h.Events, core.Event{Ev: "prelude", Text: "func f0(x) { x * 2 }\ngv1 = 10"})
+	oneInput := r.Bool(.4) // all definitions as directly adjacent statements of ONE input
+	var batch []string
 	for _, d := range defs {
-		h.Events = append(h.Events, core.Event{Ev: "define", Name: d.name, Args: d.params, Val: d.tmpl,
-			Text: fmt.Sprintf("%s = macro(%s) { quote(%s) }", d.name, strings.Join(d.params, ", "), d.tmpl)})
+		text := fmt.Sprintf("%s = macro(%s) { quote(%s) }", d.name, strings.Join(d.params, ", "), d.tmpl)
+		if oneInput {
+			batch = append(batch, text)
+			continue
+		}
+		h.Events = append(h.Events, core.Event{Ev: "define", Name: d.name, Args: d.params, Val: d.tmpl, Text: text})
+	}
+	if oneInput {
+		var names []string
+		for _, d := range defs {
+			names = append(names, d.name)
+		}
+		h.Events = append(h.Events, core.Event{Ev: "define", Name: strings.Join(names, ","), Val: "unquote(", Text: strings.Join(batch, "\n")})
 	}
 	nu := 1 + r.Intn(5)
 	for i := 0; i < nu; i++ {
@@ -253,7 +266,9 @@ func (c13) Execute(h *core.History) *core.Outcome {
 				break
 			}
 			api.St.DefineMacros(prog)
-			defined[e.Name] = true
+			for _, n := range strings.Split(e.Name, ",") {
+				defined[n] = true
+			}
 			if len(prog.Statements) != 0 {
 				fail(i, "definition-removed", fmt.Sprintf("DefineMacros left %d statements of %q in the program", len(prog.Statements), trunc(e.Text, 200)))
 			}
